@@ -47,6 +47,9 @@ func (s *Storage) Set(key string, val any, ttl time.Duration) {
 		exp = uint32(ttl.Seconds()) + utils.Timestamp()
 	}
 	i := item{e: exp, v: val}
+	// the map keeps the key it is assigned with (also for a key that already exists): store a copy, the
+	// caller's string may be a view of a request buffer (a limiter key taken from a header)
+	key = utils.CopyString(key)
 	s.Lock()
 	s.data[key] = i
 	s.Unlock()
